@@ -22,18 +22,20 @@ import (
 	"verif/sim/core"
 )
 
-const (
-	verifDir = "/verif"
-	simDir   = "/verif/sim"
-	buildDir = "/verif/.build"
-	goBin    = "go1.26.8"
-)
+const goBin = "go1.26.8"
 
-var simTest = filepath.Join(buildDir, "sim.test")
+// The framework is relocatable (background runs execute from a snapshot of the
+// committed tree); the registered checks run from /verif.
+var (
+	verifDir = envOr("VERIF_ROOT", "/verif")
+	simDir   = filepath.Join(verifDir, "sim")
+	buildDir = filepath.Join(verifDir, ".build")
+	simTest  = filepath.Join(buildDir, "sim.test")
+)
 
 func goEnv() []string {
 	env := os.Environ()
-	env = append(env, "GOFLAGS=-mod=mod", "GOPROXY=off", "GOSUMDB=off", "GOTOOLCHAIN=local", "CGO_ENABLED=0")
+	env = append(env, "GOFLAGS=-mod=mod", "GOPROXY=off", "GOSUMDB=off", "GOTOOLCHAIN=local", "CGO_ENABLED=0", "VERIF_ROOT="+verifDir)
 	return env
 }
 
